@@ -9,7 +9,7 @@ From Tx Require Xor.Model.
 From Tx Require Bridge.Model.
 From Tx Require Nat.Model Nat.Spec.
 From Tx Require Deadline.Model.
-From Tx Require Filters.Loss.
+From Tx Require Filters.Loss Filters.Tbf Filters.RouterDelay.
 From Tx Require VnetAddr.Model.
 
 (* entry points: a request is a list of sections, a section a list of integer lists *)
@@ -94,8 +94,26 @@ Definition e_c13_model (r : req) : list zs :=
   | _ => []
   end.
 
+Definition e_tbf_model (r : req) : list zs :=
+  match r with
+  | (conf :: _) :: ops :: _ => Filters.Tbf.tbf_model_run conf ops
+  | _ => []
+  end.
+
+Definition e_rdelay_model (r : req) : list zs :=
+  match r with
+  | (conf :: _) :: ops :: _ => Filters.RouterDelay.rdelay_run conf ops
+  | _ => []
+  end.
+
+Definition e_delay_oracle (r : req) : list zs :=
+  match r with
+  | (conf :: _) :: ops :: observed :: _ => [Filters.RouterDelay.delay_oracle conf ops observed]
+  | _ => []
+  end.
+
 Extraction Language OCaml.
 Extraction "extracted.ml" Z.add Z.mul Z.div_eucl Z.of_nat Z.to_nat
   e_rd_model e_rd_spec e_rd_oracle
   e_pio_model e_pio_spec e_pio_oracle
-  e_xor_model e_c18_model e_nat_model e_nat_oracle e_dl_model e_loss_model e_c13_model.
+  e_xor_model e_c18_model e_nat_model e_nat_oracle e_dl_model e_loss_model e_c13_model e_tbf_model e_rdelay_model e_delay_oracle.
